@@ -120,7 +120,8 @@ _SAFE_METHODS = {
     str: {"join", "lower", "upper", "strip", "lstrip", "rstrip", "split", "replace", "startswith",
           "endswith", "format", "isdigit", "ljust", "rjust", "zfill", "title", "find", "count", "isspace",
           "splitlines", "partition", "rpartition", "rsplit", "isalpha", "isalnum", "casefold", "index", "rfind",
-          "isnumeric", "isdecimal", "encode", "center", "capitalize", "swapcase", "isupper", "islower"},
+          "isnumeric", "isdecimal", "encode", "center", "capitalize", "swapcase", "isupper", "islower", "rindex", "removeprefix",
+          "removesuffix", "expandtabs", "istitle"},
     bytes: {"decode"},
     _re.Match: {"group", "groups", "start", "end", "span", "groupdict"},
     dict: {"items", "keys", "values", "get", "copy", "update", "setdefault", "pop"},
